@@ -39,7 +39,19 @@ pub fn check_grammar(g: &Grammar, acc: &mut Acc) {
         acc.inc("skipped_not_reduced");
         return;
     }
-    let text = g.text();
+    // two declaration orders: rules top-down (as enumerated) and bottom-up (fixpoints that depend on the order
+    // in which rules are visited)
+    let mut decls = g.default_decls();
+    check_text(g, &g.text_with(&decls), acc);
+    let first_rule = decls.iter().position(|d| matches!(d, vmodel::Decl::Rule(_))).unwrap_or(0);
+    if g.rules.len() > 1 {
+        decls[first_rule..].reverse();
+        check_text(g, &g.text_with(&decls), acc);
+    }
+}
+
+fn check_text(g: &Grammar, text: &str, acc: &mut Acc) {
+    let text = text.to_string();
     with_front(&text, |fr| {
         if fr.has_syntax_error() {
             acc.inc("skipped_syntax_error");
